@@ -8,9 +8,13 @@ ID = 'C05'
 GENS = ['units', 'consts']
 TARGETS = ['BC.Props.C05']
 PROP_FILES = ['BC/Props/C05.lean', 'BC/Lemmas/Row.lean']
+# source ties: function bodies regenerated from the Python source by translate/t_funcs.py, proved equal to the model functions
+SRC = {'module': 'BC.Props.C05Src', 'file': 'BC/Props/C05Src.lean',
+       'theorems': ['C05_src_get_correction', 'C05_src_energy', 'C05_src_ogw', 'C05_src_spin_drift', 'C05_src_stability', 'C05_src_row']}
 THEOREMS = ['C05_columns', 'C05_mach_zero_rejected', 'C05_sight_line_geometry', 'C05_adjustments', 'C05_angle', 'C05_energy_is_kinetic',
             'C05_spin_drift', 'C05_stability']
 STATEMENTS = {
+    'C05_src_row': 'SOURCE TIE (all C05_src_*): create_trajectory_row (with the _new_feet family inlined), get_correction, calculate_energy, calculate_ogw, spin_drift, calc_stability_coefficient as regenerated from the Python source equal the model functions',
     'C05_columns': 'every column of createRow is the stated function: mach = v/c, energy = w v^2/450400, ogw = w^2 v^3 1.5e-12 lb, windage = z + spin, '
                    'target_drop = (y - x tan L) cos L, look_distance = x / cos L, density_factor = rho - 1, angle = arg(vx + i vy)',
     'C05_mach_zero_rejected': 'createRow = none iff the speed of sound passed in is 0 (ZeroDivisionError)',
